@@ -297,8 +297,8 @@ func nonNilAt(v ssa.Value, b *ssa.BasicBlock, depth int) bool {
 	case *ssa.Const:
 		return x.Value != nil
 	case *ssa.Call:
-		if fn := x.Common().StaticCallee(); fn != nil {
-			q := qualifiedFuncName(fn)
+		{
+			q := callName(x.Common())
 			if errCtorNames[q] {
 				return true
 			}
